@@ -1,6 +1,6 @@
 (* C02 — Port sizes follow the wires. *)
 From Coq Require Import List String QArith.
-From Bq Require Import Expr ExprFacts RepModel Routine Compare Compile CompileFacts CompileTop StructureFacts.
+From Bq Require Import Expr ExprFacts RepModel Routine Compare Compile CompileFacts CompileTop StructureFacts WireFacts.
 Import ListNotations.
 Open Scope string_scope.
 
@@ -33,6 +33,74 @@ Theorem C02_sizes_have_their_bottom_up_value :
       den V ofQ I B rho fuel r (valenv V ofQ I B rho inputs) = Ok (valtree V ofQ I B rho t).
 Proof. exact go_natural. Qed.
 Print Assumptions C02_sizes_have_their_bottom_up_value.
+
+(* ---- a whole node, every node ----
+   When the traversal answers on ANY routine (the root or, recursively, any child: each is compiled by a call of
+   `go`), with any carrier: if the children have distinct names and no port is the target of two wires (what
+   verify_topology enforces), then
+   - for every wire from a port of the routine into a child c's port q, the child was compiled with its
+     variable `#q` bound to exactly the compiled size of that port of the routine, and
+   - for every wire from a child s into a child c, s was compiled first (topological order) and c was compiled
+     with `#q` bound to exactly the compiled size of s's port.
+   The child tree returned is the one produced by compiling the child with those inputs. *)
+Theorem C02_node_wires :
+  forall (D : Type) ev statusD fvD fuel r inputs (t : ctree D),
+    go ev statusD fvD fuel r inputs = Ok t ->
+    NoDup (map rname (rchildren r)) -> NoDup (map snd (rconnections r)) ->
+    (forall sp c q, In ((None, sp), (Some c, q)) (rconnections r) -> In c (map rname (rchildren r)) ->
+       exists tc d v, In tc (ct_children t) /\ ct_name tc = c /\
+                      lookup sp (ct_ports t) = Some (d, v) /\ lookup (hash_name q) (ct_inputs tc) = Some v /\
+                      exists cr, find_child c (rchildren r) = Some cr /\ go ev statusD fvD (pred fuel) cr (ct_inputs tc) = Ok tc) /\
+    (forall s sp c q, In ((Some s, sp), (Some c, q)) (rconnections r) ->
+       In s (map rname (rchildren r)) -> In c (map rname (rchildren r)) ->
+       exists ts tc d v, In ts (ct_children t) /\ ct_name ts = s /\ lookup sp (ct_ports ts) = Some (d, v) /\
+                         In tc (ct_children t) /\ ct_name tc = c /\ lookup (hash_name q) (ct_inputs tc) = Some v /\
+                         exists cr, find_child c (rchildren r) = Some cr /\ go ev statusD fvD (pred fuel) cr (ct_inputs tc) = Ok tc).
+Proof. exact go_wires. Qed.
+Print Assumptions C02_node_wires.
+
+(* both ends of a wire, in the compile model: a child port declared as its own variable `#q` (preprocessing does
+   that to every unsized or symbol-sized input / through port) carries exactly the compiled size of the port at
+   the other end of the wire -- "an input port declared without a size carries the size of whatever is wired to it" *)
+Theorem C02_wire_ends_equal :
+  forall fuel r inputs t,
+    go ev_subst statusE fv fuel r inputs = Ok t ->
+    NoDup (map rname (rchildren r)) -> NoDup (map snd (rconnections r)) ->
+    (forall sp c q, In ((None, sp), (Some c, q)) (rconnections r) -> In c (map rname (rchildren r)) ->
+       exists tc d v cr, In tc (ct_children t) /\ ct_name tc = c /\ find_child c (rchildren r) = Some cr /\
+         lookup sp (ct_ports t) = Some (d, v) /\
+         (forall d', NoDup (map p_name (rports cr)) -> In (Build_port q d' (ESym (hash_name q))) (rports cr) -> d' <> DOut ->
+                     lookup q (ct_ports tc) = Some (d', v))) /\
+    (forall s sp c q, In ((Some s, sp), (Some c, q)) (rconnections r) ->
+       In s (map rname (rchildren r)) -> In c (map rname (rchildren r)) ->
+       exists ts tc d v cr, In ts (ct_children t) /\ ct_name ts = s /\ In tc (ct_children t) /\ ct_name tc = c /\
+         find_child c (rchildren r) = Some cr /\ lookup sp (ct_ports ts) = Some (d, v) /\
+         (forall d', NoDup (map p_name (rports cr)) -> In (Build_port q d' (ESym (hash_name q))) (rports cr) -> d' <> DOut ->
+                     lookup q (ct_ports tc) = Some (d', v))).
+Proof. exact wire_ends_equal. Qed.
+Print Assumptions C02_wire_ends_equal.
+
+(* non-vacuity: a routine with a parent-to-child wire and a child-to-child wire (listed out of order) compiles,
+   meets the hypotheses, and the sizes at the ends agree *)
+Definition C02_example : routine :=
+  Routine "root" None ["N"] [] [] [Build_port "in_0" DIn (ESym "N"); Build_port "out_0" DOut (ESym "#out_0")] []
+          [((Some "a", "out_0"), (Some "b", "in_0")); ((None, "in_0"), (Some "a", "in_0")); ((Some "b", "out_0"), (None, "out_0"))]
+          None []
+          [Routine "b" None [] [] [] [Build_port "in_0" DIn (ESym "#in_0"); Build_port "out_0" DOut (eadd (ESym "#in_0") (EZ 1))] [] [] None [] [];
+           Routine "a" None [] [] [] [Build_port "in_0" DIn (ESym "#in_0"); Build_port "out_0" DOut (emul (EZ 2) (ESym "#in_0"))] [] [] None [] []].
+
+Example C02_example_compiles :
+  exists t, go ev_subst statusE fv 3 C02_example [] = Ok t
+            /\ NoDup (map rname (rchildren C02_example)) /\ NoDup (map snd (rconnections C02_example))
+            /\ map (fun k => (ct_name k, ct_ports k)) (ct_children t)
+               = [("a", [("in_0", (DIn, ESym "N")); ("out_0", (DOut, emul (EZ 2) (ESym "N")))]);
+                  ("b", [("in_0", (DIn, emul (EZ 2) (ESym "N"))); ("out_0", (DOut, eadd (emul (EZ 2) (ESym "N")) (EZ 1)))])].
+Proof.
+  eexists. split; [vm_compute; reflexivity|]. split; [|split].
+  - cbn. repeat constructor; cbn; intuition discriminate.
+  - cbn. repeat constructor; cbn; intuition discriminate.
+  - reflexivity.
+Qed.
 
 Example C02_nonvacuous :
   put_port_sizes [("in_0", (Some "a", "i"))] [("in_0", (DIn, ESym "N"))] ([], [("a", [])])
